@@ -198,7 +198,8 @@ fn item<C: Suite>(ctx: &mut Ctx, n: u16, t: u16, source: &str, kind: &str, proc_
     };
     let nn = n as usize;
     let tt = t as usize;
-    let per_size = ctx.scale(2, 1000);
+    // thorough: every remaining set up to n = 6, a sample of 8 per size above
+    let per_size = ctx.scale(2, if n <= 6 { 1000 } else { 8 });
     let mut rsets: Vec<Vec<usize>> = vec![];
     for k in tt..=nn {
         let mut s = subsets(nn, k, 1000, &mut p);
